@@ -106,12 +106,17 @@ CHECKS["C02"] = dict(
           "evict_all with and without held handles (re-validated after every own op). Every key sub-history is checked for "
           "linearizability against the register-with-misses model; foreign values (embedded key != requested key) are flagged "
           "directly. Thorough adds the same workload under ThreadSanitizer. Non-trivial = the history contains at least one pair "
-          "of overlapping conflicting operations of different threads on one key; distinct = hash of the global inv/ret event order."),
+          "of overlapping conflicting operations of different threads on one key; distinct = hash of the global inv/ret event order. "
+          "Second monitor (the stepped fetch-script engine of C06, run under this property): deterministic orderings of get_or_fetch "
+          "stages with insert / remove, including an origin future that itself inserts (and removes) the key during its final poll; "
+          "what a lookup finally finds must be what a sequential execution of the completed operations leaves (a superseded fetch "
+          "result that surfaces is a non-linearizable read)."),
     assumptions=LIN_ASSUME,
     min_nontrivial=50,
     jobs=[dict(cmd="c02", tiers=["quick", "thorough"], timeout=1500),
           dict(cmd="c02", flavour="tsan", tier_arg="quick", tiers=["thorough"], timeout=2400, env={"TSAN_OPTIONS": "halt_on_error=1 second_deadlock_stack=1"}),
-          dict(cmd="c02", flavour="miri", tier_arg="miri", tiers=["thorough"], timeout=3000)],
+          dict(cmd="c02", flavour="miri", tier_arg="miri", tiers=["thorough"], timeout=3000),
+          dict(cmd="fetchseq", args={"prop": "C02"}, tiers=["quick", "thorough"], timeout=1800)],
 )
 
 HYB_ASSUME = [
